@@ -32,7 +32,7 @@ CLAIMED = {
  "C09": ("property-based testing: formatter oracle + grammar/corruption-based string generator against an explicit accept-set oracle; exhaustive small alphabets; libFuzzer hex target (thorough)",
          "All five text forms versus a definition-level formatter; from_hex_string on printed tables with structured corruptions (signs, non-hex, upper case, multi-byte UTF-8, length +-1/2, chunk-boundary positions) versus the accept set `exactly width hex digits fitting 2^n bits`; exhaustive over a 20-symbol alphabet up to width+1 for n<=3/4.",
          "Upper-case digits may be accepted or rejected.", "DESIGN.md §4 C09"),
- "C10": ("differential property-based testing: the same generated API history interpreted on Lut and on LutN, outcomes compared step by step; conversion round trips; exhaustive u8/u16 integer conversions",
+ "C10": ("differential property-based testing: the same generated API history interpreted on Lut and on LutN, outcomes compared step by step; conversion round trips; exhaustive u8/u16 integer conversions; libFuzzer differential history target (thorough)",
          "For N in 0..=12 generated histories over the whole common API give identical outcomes (blocks, certificates, classifications, counts, strings, orderings, Ok/Err) on both families; Lut<->LutN conversions lossless and failing exactly on size mismatch; integer conversions bit-exact (exhaustive for u8/u16).",
          "Default excluded (Lut::default() has 0 variables); canonization N>=9 not exercised.", "DESIGN.md §4 C10"),
  "C11": ("exhaustive enumeration of constructor arguments against popcount definitions, plus generated count masks",
@@ -98,6 +98,8 @@ def main():
       "engines": [
         {"name":"vharness","path":"harness/","serves_properties":[c["property_id"] for c in checks if c["property_id"]!="C18"],
          "kind_free_text":"Rust crate: seeded proptest runners sharded over threads + exhaustive enumerators + definition-level oracles; built in two profiles (release / release+debug-assertions+overflow-checks); driver ./check merges evidence"},
+        {"name":"vfuzz","path":"harness/fuzz/ (cargo-fuzz, libFuzzer)","serves_properties":["C02","C09","C10","C12","C14","C16"],
+         "kind_free_text":"coverage-guided byte-level targets (thorough tier) decoding into the same Case types and judged by the same oracles; every stop is converted to a replay file and re-judged by vcheck in both profiles before it is reported"},
         {"name":"vharness-mip","path":"harness/ (bin vcheck_mip, feature mip -> volute/optim-mip, HiGHS)","serves_properties":["C18"],
          "kind_free_text":"same engine, separate binary so that HiGHS is only linked where it is needed"},
       ],
